@@ -52,6 +52,7 @@ TReturn  == IsEvent("Return") /\ Return(Ev.s, Ev.res, [sent |-> SeqSet(Ev.sent),
 TClose   == IsEvent("Close") /\ Close(Ev.s) /\ Consume
 TEnd     == IsEvent("End") /\ End(Ev.timedout, Ev.pendingA, Ev.pendingB) /\ Consume
 TEndAll  == IsEvent("EndAll") /\ EndAll /\ Consume
+TCmsIntent == IsEvent("CmsIntent") /\ Ev.s = "B" /\ CmsIntent(Ev.s) /\ Consume     \* the scripted peer only
 
 TUnit ==
     /\ IsEvent("Unit")
@@ -68,7 +69,7 @@ TUnit ==
        \/ k = "EndBlock" /\ EndBlock(s, e.count, e.sumOK)
        \/ k = "Fs" /\ Fs(s, e.answers, e.offsets)
        \/ k = "Frame" /\ Frame(s, e)
-       \/ k = "FF" /\ FF(s)
+       \/ k = "FF" /\ (FF(s) \/ StaleFF(s))
        \/ k = "FQ" /\ FQ(s)
        \* kind "Bad" (anything the lexer could not accept) matches no action
     /\ Consume
@@ -76,7 +77,7 @@ TUnit ==
 TraceNextB == \/ (UNCHANGED lastoff /\ (TSession \/ TUnit))
               \/ (UNCHANGED fwd /\ TOffer)
               \/ (UNCHANGED <<fwd, lastoff>> /\ (TQueue \/ TCut \/ TPrepare \/ THAnswer \/ TStore \/ TSetSent \/ TSetDef
-                                                 \/ TReturn \/ TClose \/ TEnd \/ TEndAll))
+                                                 \/ TReturn \/ TClose \/ TEnd \/ TEndAll \/ TCmsIntent))
 
 TraceNext == TAltered \/ TExpectFw \/ (UNCHANGED <<alt, expfw>> /\ TraceNextB)
 TraceSpec == TraceInit /\ [][TraceNext]_<<vars, tvars, alt, fwd, expfw, lastoff>>
